@@ -5,7 +5,7 @@ CONSTANTS
   TwapBars = 7
   Level = 1
   MaxSteps = 3
-  MaxVaults = 1
+  MaxVaults = 2
   NK = 2
   BarMode = FALSE
   NBars = 1
